@@ -101,6 +101,19 @@ def tlv(t: int, v: bytes) -> bytes:
     return struct.pack('!HH', t, len(v)) + v
 
 
+def _sst(t: int, v: bytes) -> bytes:
+    return bytes([t]) + struct.pack('!H', len(v)) + v
+
+
+def _srv6_sid_info(subsub: bytes) -> bytes:
+    body = b'\x00' + bytes.fromhex('20010db8000100000000000000000001') + b'\x00' + struct.pack('!H', 0x13) + b'\x00' + subsub
+    return _sst(1, body)
+
+
+def _srv6_l3(subs: bytes) -> bytes:
+    return _sst(5, b'\x00' + subs)
+
+
 def build(kind: str, pay: bytes):
     """-> ('msg', type, body) | ('call', name)"""
     if kind.startswith('open-'):
@@ -127,6 +140,12 @@ def build(kind: str, pay: bytes):
             'upd-ls-opaque': bgpmsg.attr(0x80, 29, tlv(1025, pay)),
             'upd-sid-twice': bgpmsg.attr(0xC0, 40, (b'\x01\x00\x07\x00\x00\x00' + struct.pack('!L', 5)) + (b'\x01\x00\x07\x00\x00\x00' + struct.pack('!L', 6))),
             'upd-sid-srgb-twice': bgpmsg.attr(0xC0, 40, b'\x01\x00\x07\x00\x00\x00' + struct.pack('!L', 5) + b'\x03\x00\x08\x00\x00' + b'\x00\x3e\x80\x00\x00\x64' + b'\x03\x00\x08\x00\x00' + b'\x00\x7d\x00\x00\x00\x64'),
+            # AGGREGATOR and AS4_AGGREGATOR in one UPDATE (RFC 6793: the second one is only meaningful from a 2-byte speaker)
+            'upd-aggr-both': bgpmsg.attr(0xC0, 7, struct.pack('!L', 65010) + bytes([10, 0, 0, 9])) + bgpmsg.attr(0xC0, 18, struct.pack('!L', 4200000000) + bytes([10, 0, 0, 9])),
+            # RFC 9252: SRv6 L3 service TLV > SID information sub-TLV > two sub-sub-TLVs of a type nobody knows
+            'upd-sid-srv6-subsub-twice': bgpmsg.attr(0xC0, 40, _srv6_l3(_srv6_sid_info(_sst(200, b'\x01\x02') + _sst(200, b'\x03\x04')))),
+            # ... and two SID information sub-TLVs
+            'upd-sid-srv6-sub-twice': bgpmsg.attr(0xC0, 40, _srv6_l3(_srv6_sid_info(b'') + _srv6_sid_info(b''))),
         }[kind]
         return 'msg', 2, bgpmsg.update(attrs=bgpmsg.base_attrs() + extra, nlri=bgpmsg.prefix('10.0.0.0/24'))[19:]
     if kind in ('oper-adm', 'oper-asm'):
